@@ -31,3 +31,22 @@ Theorem C03_unrepaired_selfset_refuted :
   <> \sum_(j < size outs) ybars`_j * (R_tangent_out recip unval unpart t outs xs dxs)`_j.
 Proof. exact: unrepaired_selfset_refuted. Qed.
 Print Assumptions C03_unrepaired_selfset_refuted.
+
+(* ---- the same identity for the EXECUTABLE instance (TracerExec.v: coefficient lists of length D over a field, the series kernels of
+   Series.v -- what the correspondence check runs by vm_compute), at every Taylor order d < D: the executable instance refines the
+   ring instance at {poly K} modulo X^D (TracerRefine.v), so the identity above transfers to it. *)
+From AlgoV Require Import Series TracerExec TracerRefine.
+Theorem C03_exec_adjoint (K : fieldType) (D : nat) (t : tape (seq K)) (outs : seq nat) (xs dxs ybars : seq (seq K)) :
+  all (@node_ok K D) t -> sized D xs -> sized D dxs -> sized D ybars ->
+  wf_tape (size xs) t -> size dxs = size xs -> size ybars = size outs -> uniq outs ->
+  all (fun a => (a < size t)%N && is_scal t a) outs ->
+  forall d, (d < D)%N ->
+  (\sum_(i < size xs) Poly (nth [::] (X_grad D t outs xs ybars) i) * Poly (nth [::] dxs i))`_d
+  = (\sum_(j < size outs) Poly (nth [::] ybars j) * Poly (nth [::] (X_tangent_out D t outs xs dxs) j))`_d.
+Proof. exact: X_adjoint. Qed.
+Print Assumptions C03_exec_adjoint.
+Theorem C03_exec_grad_refines (K : fieldType) (D : nat) (t : tape (seq K)) outs xs ybars : all (@node_ok K D) t -> sized D xs -> sized D ybars ->
+  sers_rel D (X_grad D t outs xs ybars)
+             (R_gradient_like (recipP D) (unvalP D) (unpartP D) (map (@nodeP K) t) outs (map Poly xs) (map Poly ybars)).
+Proof. exact: X_grad_refines. Qed.
+Print Assumptions C03_exec_grad_refines.
